@@ -2,6 +2,7 @@
 package c10
 
 import (
+	"encoding/json"
 	"errors"
 	"fmt"
 	"os"
@@ -163,7 +164,69 @@ var F = &proto.Family{ID: "C10", Gen: gen, Bound: func(tier string) int {
 	return 1
 }}
 
+// ---- whole requests: nothing started on behalf of a request outlives the call -------------------------------
+
+func genRT(tier string) []proto.RTItem {
+	var items []proto.RTItem
+	for _, pr := range []struct{ p, m string }{{"udp", ""}, {"tcp", "syn"}, {"icmp", ""}} {
+		for _, pub := range []string{"", "ok", "fail", "slow"} {
+			for _, f := range [][]simnet.Fault{nil, {{Op: "WriteTo", K: -1, Class: "fatal"}}, {{Op: "NewSource", K: -1, Class: "fatal"}}} {
+				r := proto.RTScn{Hostname: "203.0.113.77", Protocol: pr.p, Method: pr.m, MinTTL: 1, MaxTTL: 4, DelayMs: 10, TimeoutMs: 100, Queries: 2, E2e: 1, Dest: 3,
+					IPIDBase: 1000, EchoBase: 101, Faults: f, PublicIP: pub, ReverseDNS: pub == "ok"}
+				name := "no-fault"
+				if f != nil {
+					name = "fault-" + f[0].Op
+				}
+				items = append(items, proto.RTItem{Scn: r, Class: fmt.Sprintf("request/%s-%s/public-ip-%s/%s", pr.p, pr.m, map[string]string{"": "off"}[pub]+pub, name)})
+			}
+		}
+	}
+	return items
+}
+
+var RF = &proto.RTFamily{ID: "C10", Gen: genRT, Check: func(it *proto.RTItem, r *proto.RTResult) []proto.Issue {
+	var out []proto.Issue
+	if r.Net.Injected > 0 {
+		if r.Err == nil {
+			out = append(out, proto.Issue{Key: "failure-swallowed", Detail: r.Summary()})
+		} else if !errors.Is(r.Err, simnet.ErrInjected) {
+			out = append(out, proto.Issue{Key: "cause-not-wrapped", Detail: r.Err.Error()})
+		}
+		if r.Err != nil && r.Res != nil {
+			out = append(out, proto.Issue{Key: "result-with-error", Detail: ""})
+		}
+	} else if r.Err != nil {
+		out = append(out, proto.Issue{Key: "error-without-fault", Detail: r.Err.Error()})
+	}
+	if r.ThreadsLeft > 0 {
+		out = append(out, proto.Issue{Key: "goroutine-outlives-call", Detail: fmt.Sprintf("%d threads still running when RunTraceroute returned (err=%v)", r.ThreadsLeft, r.Err)})
+	}
+	for _, s := range r.Net.Sinks {
+		if s.Closes != 1 {
+			out = append(out, proto.Issue{Key: fmt.Sprintf("sink-closed-%d-times", s.Closes), Detail: ""})
+		}
+	}
+	for _, s := range r.Net.Sources {
+		if s.Closes != 1 {
+			out = append(out, proto.Issue{Key: fmt.Sprintf("source-closed-%d-times", s.Closes), Detail: ""})
+		}
+	}
+	return out
+}, Bound: func(string) int { return 1 }}
+
 func init() {
+	F.ExtraCount = RF.Count
+	F.ExtraRun = RF.Run
+	F.ExtraReplay = func(scn json.RawMessage, choices []int) (string, bool, bool) {
+		var w struct {
+			RT json.RawMessage `json:"rt"`
+		}
+		if json.Unmarshal(scn, &w); w.RT == nil {
+			return "", false, false
+		}
+		s, ok := RF.Replay(scn, choices)
+		return s, ok, true
+	}
 	F.Check = check
 	F.Register("fault_enumeration",
 		"item = (variant, network answering / silent, operation in {sink constructor, source constructor, SetPacketFilter, SetReadDeadline, Read, WriteTo}, error class {fatal; for Read also deadline and zero-length}); "+
